@@ -119,6 +119,9 @@ def check(ctx):
         kind = kinds[i % 3]
         size = ctx.rng.choice([2, 3, 4, 5, 6, 7, 8, 9, 15, 16, 17, 31, 32, 33]) if i % 4 else ctx.rng.randrange(2, 34)
         rnd += random_script(ctx.rng, kind, size, 120 if ctx.thorough else 60)
+    # a few rings around the 8-bit boundary (indices and counts that do not fit a byte)
+    for i in range(24 if ctx.thorough else 6):
+        rnd += random_script(ctx.rng, kinds[i % 3], [255, 256, 257, 258, 300, 511][i % 6], 40)
     # 4. run the real code
     t1 = ctx.drive(drv, script, "ring_cover")
     t2 = ctx.drive(drv, rnd, "ring_random")
